@@ -72,8 +72,37 @@ pub fn enrich(g: &mut Gen, z: &mut ZoneModel) {
             .collect()
     };
     let apex_depth = z.apex.depth();
+    // names that echo the apex: a label equal to the apex's first label, a
+    // label ending in its text ("wlan" in "lan."), the apex repeated below
+    // itself ("printer.lan.lan.") - what string-based relativisation gets wrong
+    let apex = z.apex.clone();
+    let echo = |g: &mut Gen, n: &mut N| {
+        if apex.0.is_empty() || !n.is_at_or_below(&apex) {
+            return;
+        }
+        let first = apex.0[0].clone();
+        let cand = match g.below(3) {
+            0 => apex.child(&first),
+            1 => {
+                let mut l = vec![g.pick(b"wx0")];
+                l.extend_from_slice(&first);
+                l.truncate(63);
+                apex.child(&l)
+            }
+            _ => {
+                let mut m = N(apex.0.clone());
+                m.0.extend(apex.0.iter().cloned());
+                m.child(g.pick(&["printer", "a"]).as_bytes())
+            }
+        };
+        if cand.wire_len() <= 255 {
+            *n = cand;
+        }
+    };
     for r in &mut z.recs {
-        if g.chance(1, 3) && r.owner.depth() > apex_depth {
+        if g.chance(1, 8) && r.owner.depth() > apex_depth {
+            echo(g, &mut r.owner);
+        } else if g.chance(1, 3) && r.owner.depth() > apex_depth {
             let mut l = rich_label(g);
             // an owner whose first label is exactly "*" is a wildcard by syntax
             if l == b"*" {
@@ -82,7 +111,9 @@ pub fn enrich(g: &mut Gen, z: &mut ZoneModel) {
             r.owner.0[0] = l;
         }
         let mut fix = |g: &mut Gen, n: &mut N| {
-            if g.chance(1, 4) && !n.0.is_empty() {
+            if g.chance(1, 8) {
+                echo(g, n);
+            } else if g.chance(1, 4) && !n.0.is_empty() {
                 n.0[0] = rich_label(g);
             }
         };
